@@ -29,6 +29,11 @@ func parseLen(p []byte) (int, error) {
 		return -1, nil
 	}
 
+	// RESP lengths are canonical decimals: redis refuses a leading zero, so must the proxy
+	if len(p) > 1 && p[0] == '0' {
+		return -1, codec.ErrInvalidResp
+	}
+
 	var n int
 	for _, b := range p {
 		n *= 10
